@@ -3,12 +3,22 @@
 //   names                                 -> the primitives driven here
 //   run <name> <par:16hex> <v0> … <v4>    -> <outcome> <asked i,j,… | ->
 //   fn <op> <a:16hex> <b:16hex>           -> 16hex   (the C++ operator / libm function itself)
+//   init real <min:16hex> <upp:16hex> <seed> | init integer <min> <upp> <seed>
+//                                         -> <16hex> <parametric 0|1>   (terminal::init() after random::seed)
+//   pen <i0> <i1> <i2> <i3>               -> 16hex   symbol::penalty() of a FIFE/FIFL gene whose arguments sit
+//                                            at rows i0..i3 (through interpreter<i_mep>::penalty())
+//   lex - <text:hex>                      -> the value of the constant symbol_factory::make(text) builds | exc
+// names beyond the real family: bzero bone band bnot bor (bool.h), var<k> (variable reading feature k; the
+// values of the line are the example), cdbl (constant<double>, value = <par>), cint / cstr (value = <v0>)
 // The same lines are answered by the Lean driver from the generated terms.
 #include "c01_wire.h"
 
 #include "kernel/vita.h"
 #include "kernel/gp/src/primitive/real.h"
 #include "kernel/gp/src/primitive/string.h"
+#include "kernel/gp/src/primitive/bool.h"
+#include "kernel/gp/src/constant.h"
+#include "kernel/gp/src/variable.h"
 
 #include <cmath>
 #include <map>
@@ -25,6 +35,7 @@ struct params : vita::symbol_params
   vita::value_t fetch_arg(unsigned i) override { asked.push_back(i); return a.at(i); }
   vita::value_t fetch_opaque_arg(unsigned i) override { return fetch_arg(i); }
   vita::terminal_param_t fetch_param() const override { return par; }
+  vita::value_t fetch_var(unsigned i) override { return i < a.size() ? a[i] : vita::value_t(); }
 };
 
 double fn(const std::string &op, double a, double b, bool &ok)
@@ -85,6 +96,12 @@ int main()
   add("sub", std::make_unique<real::sub>(cvect{0}));
   add("sigmoid", std::make_unique<real::sigmoid>(cvect{0}));
   add("sife", std::make_unique<str::ife>(cvect{0, 0}));
+  add("bzero", std::make_unique<boolean::zero>(cvect{0}));
+  add("bone", std::make_unique<boolean::one>(cvect{0}));
+  add("band", std::make_unique<boolean::l_and>(cvect{0}));
+  add("bnot", std::make_unique<boolean::l_not>(cvect{0}));
+  add("bor", std::make_unique<boolean::l_or>(cvect{0}));
+  const std::vector<std::string> ext_names{"cdbl", "cint", "cstr", "var"};
 
   std::string line;
   while (std::getline(std::cin, line))
@@ -97,17 +114,86 @@ int main()
       {
         std::string s;
         for (auto &kv : prim) s += (s.empty() ? "" : " ") + kv.first;
+        for (auto &n : ext_names) s += " " + n;
         std::cout << s << "\n";
+      }
+      else if (t[0] == "init" && t.size() == 5)
+      {
+        random::seed(unsigned(std::stoul(t[4])));
+        if (t[1] == "real")
+        {
+          const real::real r(cvect{0}, verif::from_bits(std::stoull(t[2], nullptr, 16)),
+                             verif::from_bits(std::stoull(t[3], nullptr, 16)));
+          std::cout << wire::hex16(verif::bits(r.init())) << " " << (r.parametric() ? 1 : 0) << "\n";
+        }
+        else
+        {
+          const real::integer r(cvect{0}, int(std::stoll(t[2])), int(std::stoll(t[3])));
+          std::cout << wire::hex16(verif::bits(r.init())) << " " << (r.parametric() ? 1 : 0) << "\n";
+        }
+      }
+      else if (t[0] == "pen" && t.size() == 5)
+      {
+        // a FIFE gene at row 0 whose four arguments are rows i0..i3 of a single-category genome of REAL terminals
+        static const real::ife fife(cvect{0, 0});
+        static const real::ifl fifl(cvect{0, 0});
+        static const real::real num(cvect{0});
+        std::vector<index_t> ix;
+        index_t top = 1;
+        for (int k = 1; k <= 4; ++k) { ix.push_back(index_t(std::stoul(t[k]))); top = std::max<index_t>(top, ix.back()); }
+        std::string both;
+        for (const symbol *f : {static_cast<const symbol *>(&fife), static_cast<const symbol *>(&fifl)})
+        {
+          std::vector<gene> gv;
+          gv.emplace_back(std::make_pair(const_cast<symbol *>(f), std::vector<index_t>(ix.begin(), ix.end())));
+          for (index_t r = 1; r <= top; ++r) gv.emplace_back(num);
+          const i_mep ind(gv);
+          interpreter<i_mep> it(&ind);
+          both += (both.empty() ? "" : " ") + wire::hex16(verif::bits(it.penalty()));
+        }
+        std::cout << both << "\n";
+      }
+      else if (t[0] == "lex" && t.size() == 3)
+      {
+        // what symbol_factory::make(text) builds for a token that is not a registered name
+        std::string out;
+        try
+        {
+          symbol_factory f;
+          const auto sy = f.make(verif::unhex(t[2]), cvect{0});
+          params p;
+          out = sy ? wire::enc(sy->eval(p)) : std::string("null");
+        }
+        catch (const std::exception &) { out = "exc"; }
+        std::cout << out << "\n";
       }
       else if (t[0] == "run" && t.size() >= 3)
       {
         const symbol *sym = nullptr;
         for (auto &kv : prim) if (kv.first == t[1]) sym = kv.second.get();
-        if (!sym) { std::cout << "bad-op\n"; continue; }
         params p;
         p.par = verif::from_bits(std::stoull(t[2], nullptr, 16));
         for (std::size_t i = 3; i < t.size(); ++i) p.a.push_back(wire::dec(t[i]));
         while (p.a.size() < 5) p.a.push_back(value_t());
+        std::unique_ptr<symbol> tmp;
+        if (!sym)
+        {
+          if (t[1] == "cdbl")
+          {
+            // through the text constructor with 17 significant digits (constant<double>(double) itself goes
+            // through std::to_string, i.e. six decimals: the object then holds the rounded value by design)
+            char buf[40];
+            std::snprintf(buf, sizeof buf, "%.17g", p.par);
+            tmp = std::make_unique<constant<double>>(std::string(buf));
+          }
+          else if (t[1] == "cint" && p.a[0].index() == 1) tmp = std::make_unique<constant<int>>(std::get<int>(p.a[0]));
+          else if (t[1] == "cstr" && p.a[0].index() == 3)
+            tmp = std::make_unique<constant<std::string>>(std::get<std::string>(p.a[0]));
+          else if (t[1].rfind("var", 0) == 0 && t[1].size() > 3)
+            tmp = std::make_unique<variable>("X", unsigned(std::stoul(t[1].substr(3))));
+          sym = tmp.get();
+        }
+        if (!sym) { std::cout << "bad-op\n"; continue; }
         std::string out;
         try { out = wire::enc(sym->eval(p)); }
         catch (const std::bad_variant_access &) { out = "T"; }
